@@ -576,6 +576,19 @@ def check_sign_agreement(ctx, cfg, prog):
                 if sets:
                     cond = x['c']
         if cond is None:
+            # `data[0] |= c ? (.. | greater) : ..`: the flag is set by a conditional expression
+            def mentions(z_):
+                return any(isinstance(w_, dict) and w_.get('k') == 'ref' and 'encoding_flags_greater' in (w_.get('g') or '') for w_ in walk(z_))
+            for x in walk(e['body']):
+                if x.get('k') == 'assign':
+                    for y in walk(x['rhs']):
+                        if isinstance(y, dict) and y.get('k') == 'cond':
+                            t_, e_ = mentions(y['then']), mentions(y['else'])
+                            if t_ and not e_:
+                                cond = y['c']
+                            elif e_ and not t_:
+                                cond = {'k': 'un', 'op': '!', 'e': y['c'], 't': {'k': 'bool'}, 'l': y.get('l')}
+        if cond is None:
             raise bm.AnalysisBroken('%s: the statement that sets the sign flag was not found' % e['qn'])
         gid = e['params'][0]['id']
         try:
